@@ -569,6 +569,10 @@ class ProductState:
                 for item in [i, i + len(self.state_objs)]
             ]
             ps = self.state.reshape([*shape, *shape]).transpose(transpose_pattern)
+            # Permutation which undoes transpose_pattern (differs from it for > 2 states)
+            inverse_pattern = [
+                transpose_pattern.index(i) for i in range(len(transpose_pattern))
+            ]
             if new_dimensions > fock.dimensions:
                 assert isinstance(fock.index, tuple)
                 padding = new_dimensions - fock.dimensions
@@ -578,7 +582,7 @@ class ProductState:
                 ps = jnp.pad(ps, pad_config, mode="constant", constant_values=0)
                 fock.dimensions = new_dimensions
                 dims = jnp.prod(jnp.array([s.dimensions for s in self.state_objs]))
-                ps = ps.transpose(transpose_pattern)
+                ps = ps.transpose(inverse_pattern)
                 self.state = ps.reshape((dims, dims))
                 return True
             if new_dimensions < fock.dimensions:
@@ -595,7 +599,7 @@ class ProductState:
                 )
                 ps = ps[tuple(slices)]
                 fock.dimensions = new_dimensions
-                ps = ps.transpose(transpose_pattern)
+                ps = ps.transpose(inverse_pattern)
                 dims = jnp.prod(jnp.array([s.dimensions for s in self.state_objs]))
                 self.state = jnp.array(ps.reshape((dims, dims)))
                 return True
